@@ -570,6 +570,11 @@ def run_l1(prop, tier):
         r = apalache_inductive(os.path.join(SPEC, "apalache", "LimitSortInd.tla"))
         log("[L1] apalache LimitSortInd inductive ok=%s %.0fs" % (r["ok"], r["wall_s"]))
         out.append(r)
+    if tier == "thorough" and prop in ("C19", "C16"):
+        # calls of any number with words of any length: every matrix access stays inside the dimension and the flat buffer
+        r = apalache_inductive(os.path.join(SPEC, "apalache", "MatrixInd.tla"), cinit=None)
+        log("[L1] apalache MatrixInd inductive ok=%s %.0fs" % (r["ok"], r["wall_s"]))
+        out.append(r)
     if tier == "thorough" and prop in ("C10", "C12"):
         # histories of any length: a cached top-rated list is a top list of the records held now, for the limit it was made with
         r = apalache_inductive(os.path.join(SPEC, "apalache", "StoreCacheInd.tla"))
